@@ -11,13 +11,18 @@ EXTENDS Integers, Sequences
 DefaultPrecision(dt) == dt \in {"float64", "complex128"}
 
 \* C01 / C09 (reverse half): R = conj(W_R^T conj g) on the whole basis, or the call raised
-RevExact(o) == o.vjp_raised \/ o.vjp_nbad = 0
+\* ("for all cotangents": the VJP function obtained once must work for, and give the same answer on, every later cotangent)
+RevExact(o) == o.vjp_raised \/ (o.vjp_nbad = 0 /\ ~o.vjp_late)
 \* C02 / C09 (forward half): F = W_R v on the whole basis with the structure of the output, or the call raised
 FwdExact(o) == o.jvp_raised \/ (o.jvp_nbad = 0 /\ o.jvp_shape = o.out_shape /\ o.jvp_kind = o.out_kind)
 \* C04: <g, JVP v> = <cov VJP(cov g), v> on the basis, and both maps linear - wherever both modes are defined
 \* (results of the wrong structure cannot be paired at all: that is C05's finding, not C04's)
+\* linear also as *traced* functions at the origin: d/dg vjp(g) at g = 0 is vjp, d/dv jvp(v) at v = 0 is jvp
+LinearAtZero(o) == o.lin0_vjp = 0 /\ o.lin0_jvp = 0
 Adjoint(o) == (~o.vjp_raised /\ ~o.jvp_raised /\ o.vjp_shape = o.in_shape /\ o.jvp_shape = o.out_shape)
-                 => (o.adj_checked /\ o.adj_nbad = 0 /\ o.lin_vjp = 0 /\ o.lin_jvp = 0)
+                 => (o.adj_checked /\ o.adj_nbad = 0 /\ o.lin_vjp = 0 /\ o.lin_jvp = 0 /\ LinearAtZero(o))
+\* C10 per configuration: the VJP function is reusable and the caller's arrays are intact
+Reusable(o) == ~o.vjp_raised => (~o.vjp_late /\ o.intact)
 \* C05: a VJP result has exactly the structure of the argument; a JVP result that of the output
 GradInArgSpace(o) ==
   /\ ~o.vjp_raised => /\ o.vjp_shape = o.in_shape
@@ -37,7 +42,8 @@ ShapeCalcOK(o) == o.oshape_spec = <<-1>> \/ o.oshape_spec = o.out_shape
 
 \* C07 per configuration: the Hessian-vector products computed by reverse-over-reverse, forward-over-reverse, reverse-over-forward
 \* and forward-over-forward agree (1e-9), the Hessian is symmetric, and they equal the derivative of the first-order gradient
-SecondOrder(o) == o.second_checked => (o.second_nbad = 0 /\ o.second_sym_bad = 0 /\ o.second_num_bad = 0 /\ ~o.second_box)
+SecondOrder(o) == /\ LinearAtZero(o)
+                  /\ o.second_checked => (o.second_nbad = 0 /\ o.second_sym_bad = 0 /\ o.second_num_bad = 0 /\ ~o.second_box)
 
 Holds(prop, o) == CASE prop = "C01" -> RevExact(o)
                     [] prop = "C02" -> FwdExact(o)
@@ -47,4 +53,8 @@ Holds(prop, o) == CASE prop = "C01" -> RevExact(o)
                     [] prop = "C07" -> SecondOrder(o)
                     [] prop = "C09" -> RevExact(o) /\ FwdExact(o)
                     [] prop = "C11" -> RevExact(o) /\ FwdExact(o)
+                    [] prop = "C10" -> Reusable(o)
+                    [] prop = "C08" -> LinearAtZero(o)
+                    \* C14 / C17 on the `extend` and `where` families: a derivative declared zero (None) is an exact zero *in the argument's space*
+                    [] prop \in {"C14", "C17"} -> RevExact(o) /\ FwdExact(o) /\ GradInArgSpace(o)
 =============================================================================
